@@ -681,3 +681,109 @@ Example good_run :
                      OLagrange 0; OGetK 0 false; ODirichlet 0 2; OMeshMove 1 MRotate; OSetIter 1 0;
                      OSolve 2; ORho 2] w0) = [].
 Proof. vm_compute. reflexivity. Qed.
+
+(* ---- the refinement statement in executable form ---------------------------------------------------- *)
+(* the boolean comparison used by [stale_sims] (and by the correspondence harness through [trace]) is sound and
+   complete for equality of observations *)
+Lemma ckey_eqb_refl k : ckey_eqb k k = true.
+Proof. destruct k. unfold ckey_eqb. simpl. rewrite Nat.eqb_refl, N.eqb_refl. reflexivity. Qed.
+
+Lemma key_eqb_refl k : key_eqb k k = true.
+Proof. unfold key_eqb. rewrite !Nat.eqb_refl, !N.eqb_refl, ckey_eqb_refl. reflexivity. Qed.
+
+Lemma obs_eqb_refl l : obs_eqb l l = true.
+Proof. induction l as [|[k|] r IH]; simpl; auto. rewrite key_eqb_refl. auto. Qed.
+
+Lemma key_eqb_eq a b : key_eqb a b = true -> a = b.
+Proof.
+  destruct a, b. unfold key_eqb. simpl. intros H.
+  repeat (apply andb_true_iff in H; let H2 := fresh "H" in destruct H as [H H2]).
+  repeat match goal with
+         | X : Nat.eqb _ _ = true |- _ => apply Nat.eqb_eq in X
+         | X : N.eqb _ _ = true |- _ => apply N.eqb_eq in X
+         | X : ckey_eqb _ _ = true |- _ => apply ckey_eqb_eq in X
+         end.
+  subst. reflexivity.
+Qed.
+
+Lemma obs_eqb_eq a b : obs_eqb a b = true -> a = b.
+Proof.
+  revert b. induction a as [|x r IH]; intros [|y q]; simpl; try discriminate; auto.
+  intros H. apply andb_true_iff in H. destruct H as [H1 H2]. f_equal; auto.
+  destruct x, y; simpl in H1; try discriminate; auto. f_equal. apply key_eqb_eq. auto.
+Qed.
+
+Lemma filter_none {A} (f : A -> bool) l : (forall x, In x l -> f x = false) -> filter f l = [].
+Proof. induction l; simpl; auto. intros H. rewrite (H a) by auto. apply IHl. intros. apply H. auto. Qed.
+
+(* FULL STRENGTH, all simulations at once, for EVERY op list over the whole alphabet (parameter sets incl. array-valued
+   ones, mesh moves, mesh construction / replacement, boundary conditions, scheme switches, assemblies, solves,
+   Save_Iter / Set_Iter incl. switching meshes of the history, construction of further simulations): no simulation of the
+   world is stale, i.e. each one observes exactly like a freshly built simulation in its configuration *)
+Theorem no_stale_sims T : table_ok T = true -> forall ops, stale_sims T (run T ops w0) = [].
+Proof.
+  intros H ops. pose proof (table_ok_spec _ H) as O.
+  pose proof (run_inv T ops w0 O w0_inv) as [HM HS].
+  unfold stale_sims. set (w := run T ops w0) in *.
+  rewrite filter_none; auto.
+  intros [i s] Hin. apply in_combine_r in Hin. simpl.
+  rewrite Forall_forall in HS. specialize (HS _ Hin).
+  rewrite (observe_is_ideal T (par w) (mcache w) (meshes w) s O HM HS), obs_eqb_refl. reflexivity.
+Qed.
+
+(* the per-step predictions handed to the correspondence harness never contain a stale simulation *)
+Theorem trace_never_stale T : table_ok T = true -> forall ops pre,
+  Forall (fun x => snd x = []) (trace T ops (run T pre w0)).
+Proof.
+  intros H ops. induction ops as [|o r IH]; intros pre; simpl; constructor.
+  - simpl. replace (step T (run T pre w0) o) with (run T (pre ++ [o]) w0).
+    + apply no_stale_sims. auto.
+    + unfold run. rewrite fold_left_app. reflexivity.
+  - replace (step T (run T pre w0) o) with (run T (pre ++ [o]) w0).
+    + apply IH.
+    + unfold run. rewrite fold_left_app. reflexivity.
+Qed.
+
+(* and conversely a non-empty [stale_sims] exhibits a simulation that does NOT observe like a fresh one *)
+Theorem stale_sims_sound T w i : In i (stale_sims T w) ->
+  exists s, In s (sims w) /\ observe T (par w) (mcache w) (meshes w) s <> ideal_obs (par w) (meshes w) s.
+Proof.
+  unfold stale_sims. intros H. apply in_map_iff in H. destruct H as [[j s] [E H]]. simpl in E. subst j.
+  apply filter_In in H. destruct H as [Hin Hb]. simpl in Hb.
+  exists s. split.
+  - eapply in_combine_r; eauto.
+  - intros E. rewrite E, obs_eqb_refl in Hb. discriminate.
+Qed.
+
+(* non-vacuity on a long concrete history that uses EVERY constructor of [op] (checked by [covers_all_ops]),
+   three simulation kinds, three meshes, shared model, mesh history with restores *)
+Definition op_tag (o : op) : nat :=
+  match o with
+  | OParam _ => 0 | OParamArr _ _ => 1 | OMeshMove _ _ => 2 | ONewMesh => 3 | OGeoRead _ => 4 | ONewSim _ _ => 5
+  | ORho _ => 6 | ORay _ => 7 | OSetMesh _ _ => 8 | OBcInit _ => 9 | ODirichlet _ _ => 10 | ONeumann _ => 11
+  | OLagrange _ => 12 | OAlgo _ _ => 13 | OGetK _ _ => 14 | OSolve _ => 15 | OSaveIter _ => 16 | OSetIter _ _ => 17
+  end.
+Definition covers_all_ops (ops : list op) : bool :=
+  forallb (fun t => existsb (fun o => Nat.eqb (op_tag o) t) ops) (seq 0 18).
+
+Definition long_history : list op :=
+  [ONewSim KLin 0; ONewSim KPF 0; ONewSim KNonLin 0; ODirichlet 0 2; OLagrange 0; ONeumann 0; OGetK 0 false;
+   OSolve 0; OSolve 1; OSolve 2; OSaveIter 0; OSaveIter 1; OSaveIter 2; OParam false; OParamArr true false;
+   OParamArr false true; OGetK 1 true; OGetK 1 false; OMeshMove 0 MTranslate; OMeshMove 0 MRotate;
+   OMeshMove 0 MSymmetry; OMeshMove 0 MCoordSet; OGeoRead 0; ONewMesh; OSetMesh 0 1; ODirichlet 0 1; OSolve 0;
+   OSaveIter 0; ONewMesh; OSetMesh 2 2; OSolve 2; OSaveIter 2; ORho 2; ORay 0; OAlgo 0 1%N; OAlgo 2 2%N;
+   OSetIter 0 0; OBcInit 0; OGetK 0 false; OMeshMove 0 MCoordSet; OMeshMove 1 MRotate; OSetIter 2 0; OSolve 2;
+   OSetIter 1 0; OSolve 1; OSetMesh 1 1; OSolve 1; OParam true; OMeshMove 2 MCoordSet; ONewSim KLin 2; OSolve 3;
+   OSetIter 0 1; OLagrange 0; ODirichlet 0 3; OBcInit 0; OSolve 0].
+
+Example long_history_covers_every_op : covers_all_ops long_history = true.
+Proof. vm_compute. reflexivity. Qed.
+
+Example long_history_fresh :
+  stale_sims good_table (run good_table long_history w0) = [] /\ length (sims (run good_table long_history w0)) = 4.
+Proof. vm_compute. split; reflexivity. Qed.
+
+(* ... and the same history is NOT fresh as soon as one table entry is off (here: the coordinate setter does not notify) *)
+Example long_history_detects :
+  existsb (fun x => match snd x with [] => false | _ => true end) (trace (mk_table [17]) long_history w0) = true.
+Proof. vm_compute. reflexivity. Qed.
